@@ -365,6 +365,13 @@ func c06R3(c *Ctx, r *Report, rule string) {
 			k := fmt.Sprintf("%s#%d", id, rc.ord)
 			pos := c.ipos(rc.call)
 			exKey := name + "|" + k
+			// a reviewed probe that was moved into a helper of the reviewed function keeps its review
+			for _, h := range c.homeChain(fn) {
+				if _, ok := needMoreExceptions[fname(h)+"|"+k]; ok {
+					exKey = fname(h) + "|" + k
+					break
+				}
+			}
 			if rc.errV == nil {
 				if why, ok := needMoreExceptions[exKey]; ok {
 					usedExc[exKey] = true
